@@ -45,7 +45,9 @@ def _marker_render_rule(marker):
         from markdown_it.common.utils import escapeHtml
         if "RAISE" in tokens[idx].content:
             raise ValueError(f"render rule {marker} refuses this token")     # deterministic function of its input
-        return f"<{marker}>" + escapeHtml(tokens[idx].content)
+        # like footnote-style plugins, the rule reads what parsing left in env (the number of definitions seen)
+        nrefs = len(env.get("references", ())) if env is not None else -1
+        return f"<{marker} refs={nrefs}>" + escapeHtml(tokens[idx].content)
     return rule
 
 
